@@ -3,7 +3,12 @@
 package pq
 
 import (
+	"fmt"
+	"sort"
+	"strings"
 	"testing"
+
+	"verifh/vx"
 
 	"verifh/vmodel"
 	"verifh/vrep"
@@ -24,6 +29,7 @@ func TestVerif(t *testing.T) {
 	}
 	vrep.Main(t, "github.com/google/licenseclassifier/stringclassifier/internal/pq", map[string]vrep.Harness{
 		"c20_queue_long": func(c *vrep.Ctx) { vmodel.CheckQueueLong(c, api) },
+		"c20_queues":     c20Queues,
 		"c20_queue": func(c *vrep.Ctx) {
 			vmodel.CheckQueue(c, &vmodel.QueueAPI{
 				New: func(less func(x, y interface{}) bool, si func(x interface{}, idx int)) interface{} {
@@ -38,5 +44,114 @@ func TestVerif(t *testing.T) {
 				Array:  func(q interface{}) []interface{} { return q.(*Queue).heap.a },
 			})
 		},
+	})
+}
+
+// c20Queues: SEVERAL queues alive at the same time (what one queue does - grow, drain, grow again -
+// must not reach another): every sequence of up to N operations from {Push of a low / high value,
+// Pop} on two (thorough: three) queues; each queue against its own sorted-slice model, positions
+// reported through setIndex included.
+func c20Queues(c *vrep.Ctx) {
+	nq := c.Pick(2, 3)
+	depth := c.Pick(8, 8)
+	c.R.Rule = fmt.Sprintf("ALL sequences of <=%d operations from {Push(low), Push(high), Pop} x %d queues that are alive together: every Pop returns the least element of ITS queue's model, Len and Min agree after every operation, every element's last reported index holds it; non-trivial = sequences in which a queue is pushed to again after it was drained while another queue is non-empty", depth, nq)
+	c.Bound("queues", nq)
+	c.Bound("depth", depth)
+	type elem struct{ v, idx int }
+	body := func(r *vx.Run) {
+		n := 1 + r.Choose(depth, "len")
+		ops := make([]int, n)
+		for i := range ops {
+			ops[i] = r.Choose(3*nq, "op")
+		}
+		if r.Scout() {
+			return
+		}
+		qs := make([]*Queue, nq)
+		models := make([][]int, nq)
+		live := make([]map[*elem]bool, nq)
+		for i := range qs {
+			qs[i] = NewQueue(func(x, y interface{}) bool { return x.(*elem).v < y.(*elem).v }, func(x interface{}, idx int) { x.(*elem).idx = idx })
+			live[i] = map[*elem]bool{}
+		}
+		msg := ""
+		serial := 0
+		drained := make([]bool, nq)
+		nontrivial := false
+		var hist []string
+		for _, o := range ops {
+			qi, kind := o/3, o%3
+			func() {
+				defer func() {
+					if x := recover(); x != nil {
+						msg = fmt.Sprint("panic: ", x)
+					}
+				}()
+				switch kind {
+				case 0, 1:
+					serial++
+					e := &elem{v: (1-kind)*1000 + serial, idx: -1} // kind 0: high value, kind 1: low value
+					hist = append(hist, fmt.Sprintf("q%d.Push(%d)", qi, e.v))
+					if drained[qi] {
+						for j := range qs {
+							if j != qi && len(models[j]) > 0 {
+								nontrivial = true
+							}
+						}
+					}
+					qs[qi].Push(e)
+					live[qi][e] = true
+					models[qi] = append(models[qi], e.v)
+					sort.Ints(models[qi])
+				case 2:
+					hist = append(hist, fmt.Sprintf("q%d.Pop()", qi))
+					if len(models[qi]) == 0 {
+						return // Pop of an empty queue is outside the contract
+					}
+					got := qs[qi].Pop().(*elem)
+					if got.v != models[qi][0] {
+						msg = fmt.Sprintf("Pop returned %d, the least element of this queue is %d", got.v, models[qi][0])
+					}
+					if !live[qi][got] && msg == "" {
+						msg = fmt.Sprintf("Pop returned %d, which was never pushed into this queue (or was popped before)", got.v)
+					}
+					delete(live[qi], got)
+					models[qi] = models[qi][1:]
+					if len(models[qi]) == 0 {
+						drained[qi] = true
+					}
+				}
+			}()
+			for j := range qs {
+				if msg != "" {
+					break
+				}
+				if qs[j].Len() != len(models[j]) {
+					msg = fmt.Sprintf("q%d.Len() = %d, model has %d elements", j, qs[j].Len(), len(models[j]))
+				} else if len(models[j]) > 0 && qs[j].Min().(*elem).v != models[j][0] {
+					msg = fmt.Sprintf("q%d.Min() = %d, model %d", j, qs[j].Min().(*elem).v, models[j][0])
+				}
+				for e := range live[j] {
+					if msg == "" && (e.idx < 0 || e.idx >= len(qs[j].heap.a) || qs[j].heap.a[e.idx] != interface{}(e)) {
+						msg = fmt.Sprintf("element %d of q%d was last told index %d, which does not hold it", e.v, j, e.idx)
+					}
+				}
+			}
+			if msg != "" {
+				break
+			}
+		}
+		r.Note = map[string]interface{}{"id": strings.Join(hist, " "), "msg": msg, "nt": nontrivial}
+	}
+	e := c.Explorer(0)
+	e.SplitDepth = 3
+	c.Run(e, body, func(r *vx.Run) {
+		if r.Note["nt"].(bool) {
+			c.R.Nontrivial++
+		}
+		if m := r.Note["msg"].(string); m != "" {
+			id := r.Note["id"].(string)
+			c.Violate("c20_queues:"+strings.ReplaceAll(id, " ", "_"), id+": "+m, r, m)
+		}
 	})
 }
